@@ -70,6 +70,48 @@ def tag_eq(z, a, b):
     return a == b
 
 
+# symbolic affine expressions over usize terms: ('aff', ((term, coeff), ...), const)
+def to_aff(v):
+    if v[0] == 'int':
+        if isinstance(v[1], int):
+            return ((), v[1])
+        return (((v[1], 1),), 0)
+    if v[0] == 'slen':
+        out = {}
+        for t, c in ((v[2], 1), (v[1], -1)):
+            if isinstance(t, int):
+                out['#'] = out.get('#', 0) + c * t
+            else:
+                out[t] = out.get(t, 0) + c
+        k = out.pop('#', 0)
+        return (tuple(sorted(((t, c) for t, c in out.items() if c), key=lambda x: x[0].name)), k)
+    if v[0] == 'aff':
+        return (v[1], v[2])
+    return None
+
+
+def aff_add(a, b, sign):
+    out = {}
+    for t, c in a[0]:
+        out[t] = out.get(t, 0) + c
+    for t, c in b[0]:
+        out[t] = out.get(t, 0) + sign * c
+    return (tuple(sorted(((t, c) for t, c in out.items() if c), key=lambda x: x[0].name)), a[1] + sign * b[1])
+
+
+def aff_norm(a):
+    terms, k = a
+    if not terms and k >= 0:
+        return ('int', k)
+    if len(terms) == 1 and terms[0][1] == 1 and k == 0:
+        return ('int', terms[0][0])
+    if len(terms) == 2 and k == 0 and sorted(c for _, c in terms) == [-1, 1]:
+        pos = [t for t, c in terms if c == 1][0]
+        neg = [t for t, c in terms if c == -1][0]
+        return ('slen', neg, pos)
+    return ('aff', terms, k)
+
+
 def short(bid):
     s = bid
     for a in ('<', '>'):
@@ -958,6 +1000,8 @@ class Interp:
                 r = {'Eq': x == y, 'Ne': x != y, 'Lt': x < y, 'Le': x <= y, 'Gt': x > y, 'Ge': x >= y}[op]
                 return TRUE if r else FALSE
             return ('boolc', (op, x, y))
+        if a[0] == 'aff' or b[0] == 'aff':
+            return ('boolu', ('cmp', op, a, b))
         if (a[0] == 'slen' or b[0] == 'slen') and a[0] in ('int', 'slen') and b[0] in ('int', 'slen'):
             return ('boolc', (op, a if a[0] == 'slen' else a[1], b if b[0] == 'slen' else b[1]))
         if a[0] == 'bool' and b[0] == 'bool' and op in ('Eq', 'Ne'):
@@ -1224,14 +1268,13 @@ class Interp:
             return self.compare(st, op, a, b)
         base = op.replace('WithOverflow', '').replace('Unchecked', '')
         checked = op.endswith('WithOverflow')
+        if base in ('Add', 'Sub') and (a[0] == 'aff' or b[0] == 'aff') and to_aff(a) is not None and to_aff(b) is not None:
+            res = aff_norm(aff_add(to_aff(a), to_aff(b), 1 if base == 'Add' else -1))
+            return ('tuple', (res, ('boolu', ('ovf',)))) if checked else res
         if base in ('Add', 'Sub') and a[0] in ('int', 'slen') and b[0] in ('int', 'slen'):
             if a[0] == 'slen' or b[0] == 'slen':
-                # only used by size_hint-style code: result bounded by the larger operand
-                t = fresh('r')
-                z.touch(t)
-                res = I(t)
-                if base == 'Sub' and a[0] == 'slen' and z.entails_eq(a[1], 0):
-                    z.add_le(t, a[2])
+                # only used by size_hint-style code: kept as a symbolic affine expression
+                res = aff_norm(aff_add(to_aff(a), to_aff(b), 1 if base == 'Add' else -1))
                 return ('tuple', (res, ('boolu', ('ovf',)))) if checked else res
             x, y = a[1], b[1]
             if isinstance(x, int) and isinstance(y, int):
